@@ -19,6 +19,10 @@
  *   - allocator events: new-key insert = exactly one block (net), existing-key
  *     insert / find / failed erase = no net change, erase = exactly the block
  *     the insert allocated, clear = all of them; vrt_lib_live() == size;
+ *   - out-iterators are ONE variable re-used by every operation; on entry it holds a sentinel, the previous call's
+ *     result, an older result for the same / another value (live, erased since, left over from erase_iterator, node
+ *     memory handed out again), the iterator of the same key object in ANOTHER map, or that map's end (section
+ *     "the out-iterator"); the expected outcome never depends on it, and the other map must be left alone;
  *   - clear callback: exactly-once per entry with its stored (key, value);
  *     the boxed objects are poisoned and freed inside the callback;
  *   - ASan/UBSan; erased key/value objects are poisoned and freed right after
@@ -158,9 +162,12 @@ struct evsum {
     int nfreed; void *freed[VRT_EV_MAX];
     int transient, overflow, reallocs;
 };
+static int other_n;                     /* node blocks that belong to the OTHER map (see "the out-iterator" below) */
+static void other_map_verify(void);
 static void ev_sum(struct evsum *s)
 {
     int n = vrt_ev_n(), i, j;
+    other_map_verify();         /* (once per build) the call on `map` left the other map alone; allocates nothing */
     memset(s, 0, offsetof(struct evsum, freed));
     s->transient = s->overflow = s->reallocs = 0;
     if (n > VRT_EV_MAX) { s->overflow = 1; n = VRT_EV_MAX; }
@@ -190,10 +197,11 @@ static void ev_sum(struct evsum *s)
     }
     if (s->transient) VRT_COUNT_N("alloc.transient-blocks", s->transient);
 }
+static size_t lib_live(void) { return vrt_lib_live() - (size_t)other_n; }
 static void alloc_live(const char *ctx)
 {
-    if (vrt_lib_live() != (size_t)Mn)
-        FAILK(ctx, "alloc.live-count", "%zu library blocks live, the map holds %d entries", vrt_lib_live(), Mn);
+    if (lib_live() != (size_t)Mn)
+        FAILK(ctx, "alloc.live-count", "%zu library blocks live, the map holds %d entries", lib_live(), Mn);
 }
 /* the call must not have changed the set of live library blocks */
 static void alloc_none(const char *ctx)
@@ -248,37 +256,215 @@ static void is_end(const cstl_map_iterator_t *i, const char *ctx, int v)
               v, i->key, i->val);
 }
 
-/* find value v with key object po and compare with the model */
-static void check_find(int v, int po, const char *ctx, cstl_map_iterator_t *out)
+/* ------------------------------------------------------------------ */
+/* the out-iterator: ONE variable for every call, and what it holds on entry */
+/* ------------------------------------------------------------------ */
+/* The iterator arguments of insert / find / erase are [out]: whatever they hold on entry must not matter.  Every
+ * operation of the workload hands the library the SAME variable CI; on entry it holds, chosen from the history hash:
+ *   a sentinel pattern; whatever the previous call left in it (never reset); the last iterator this map produced for the
+ *   SAME value (still the live entry = benign, or the entry has been erased since: reported by erase, left over from
+ *   erase_iterator, node memory possibly handed out again to a later insert); the last iterator produced for ANOTHER
+ *   value; the iterator of the very same key object in ANOTHER map (which holds a different value for it); that map's end.
+ * The expected outcome is the model's, exactly as with a sentinel.  The independent finds of the oracle (then-find, audit)
+ * keep their own sentinel-filled local. */
+enum { IT_SENTINEL = 0, IT_ENTRY, IT_ERASE_REPORT, IT_ERASE_IT_LEFTOVER, IT_END, IT_OTHER_MAP, IT_OTHER_END };
+enum { EP_INSERT = 0, EP_FIND, EP_ERASE };
+struct itdesc { int how, v; unsigned gen; const void *blk; };   /* what an iterator content is, by the model's knowledge */
+static cstl_map_iterator_t CI;
+static struct itdesc CId;
+static cstl_map_iterator_t last_it[MAXV];       /* last iterator content produced for the value */
+static struct itdesc last_d[MAXV];
+static unsigned gen[MAXV];                      /* incarnation of the value's entry (bumped when the entry goes) */
+static unsigned arrivals, other_serial;
+static int lean;                                /* rebuilding a known state (closure replay): no other-map builds */
+static cstl_map_t other;                        /* the other map: same comparison, shares key objects, own values */
+static int other_fresh;
+static cstl_map_iterator_t other_it;
+static struct kobj *other_k;
+static int foreign_val[2];
+
+#define ARR(ep, what) do {                                                      \
+        if ((ep) == EP_INSERT) VRT_COUNT("op.insert.arrives." what);            \
+        else if ((ep) == EP_FIND) VRT_COUNT("op.find.arrives." what);           \
+        else VRT_COUNT("op.erase.arrives." what); } while (0)
+
+/* CI now holds what the call just produced for value v */
+static void it_now(int how, int v)
+{
+    CId.how = how; CId.v = v; CId.gen = gen[v]; CId.blk = M[v].blk;
+    last_it[v] = CI; last_d[v] = CId;
+}
+static void it_now_end(void) { CId.how = IT_END; CId.v = 0; CId.gen = 0; CId.blk = NULL; }
+
+static void other_map_drop(void)
+{
+    size_t before;
+    if (other_n == 0) return;
+    before = vrt_lib_live();
+    vrt_state("other-map");
+    VRT_OP1("map.other-map.clear", "entries=%ld", other_n);
+    cstl_map_clear(&other, NULL, NULL);         /* never looks at the keys (some may be gone by now) */
+    VRT_CHECK(vrt_lib_live() + (size_t)other_n == before && cstl_map_size(&other) == 0, "map.other-map.clear",
+              "clear of the other map (%d entries) released %zu blocks", other_n, before - vrt_lib_live());
+    other_n = 0; other_fresh = 0;
+}
+/* the other map holds key object k (of value v) with a value of its own; CI = its iterator there */
+static void other_map_build(int v, struct kobj *k, unsigned sel)
+{
+    size_t before;
+    int r, want = 1;
+    other_map_drop();
+    before = vrt_lib_live();
+    memset(&other, 0xc3, sizeof(other));
+    vrt_state("other-map");
+    VRT_OP2("map.other-map.build", "v%ld neighbour=%ld", v, sel & 1);
+    cstl_map_init(&other, desc ? cmp_desc : cmp_asc, &cmp_cookie);
+    if (sel & 1) {              /* a neighbour first: the shared key is not the root then */
+        const int u = (v + 1 + (int)(sel >> 1 & 1)) % nv;
+        r = cstl_map_insert(&other, getk(u, no - 1), &foreign_val[1], NULL);
+        VRT_CHECK(r == 0, "map.other-map.build", "insert into the fresh other map returned %d", r);
+        want = 2;
+    }
+    if (sel & 4) {
+        r = cstl_map_insert(&other, k, &foreign_val[0], &CI);
+    } else {
+        r = cstl_map_insert(&other, k, &foreign_val[0], NULL);
+        cstl_map_find(&other, k, &CI);
+    }
+    VRT_CHECK(r == 0 && !cstl_map_iterator_eq(&CI, cstl_map_iterator_end(&other)) && CI.key == (const void *)k
+              && CI.val == (void *)&foreign_val[0] && vrt_lib_live() == before + (size_t)want
+              && cstl_map_size(&other) == (size_t)want, "map.other-map.build",
+              "other map: insert of value %d returned %d, iterator key %p (offered %p), %zu new blocks", v, r, CI.key,
+              (void *)k, vrt_lib_live() - before);
+    other_n = want; other_fresh = 1; other_k = k; other_it = CI; other_serial++;
+    CId.how = IT_OTHER_MAP; CId.v = v; CId.gen = other_serial; CId.blk = NULL;
+    VRT_COUNT("other-map.built");
+}
+/* right after the call on `map` that was handed the other map's iterator: the other map is as it was */
+static void other_map_verify(void)
+{
+    cstl_map_iterator_t j;
+    if (!other_fresh) return;
+    other_fresh = 0;
+    vrt_state("other-map");
+    VRT_OP1("map.other-map.check", "entries=%ld", other_n);
+    VRT_CHECK(cstl_map_size(&other) == (size_t)other_n, "map.other-map.size",
+              "a call on the map changed the size of ANOTHER map (whose iterator the out-parameter held on entry) from %d to %zu",
+              other_n, cstl_map_size(&other));
+    memset(&j, 0x5a, sizeof(j));
+    cstl_map_find(&other, other_k, &j);
+    VRT_CHECK(j._ == other_it._ && j.key == other_it.key && j.val == other_it.val, "map.other-map.entry",
+              "after a call on the map, the entry of ANOTHER map (whose iterator the out-parameter held on entry) reads key %p / val %p, it was %p / %p",
+              j.key, j.val, other_it.key, other_it.val);
+    VRT_COUNT("other-map.verified");
+}
+
+/* load CI for a call of entry point ep that is about to get key object k of value v */
+static void arrive(int ep, int v, struct kobj *k)
+{
+    const unsigned sel = (unsigned)(vrt_mix(hist, 0xa77100u + arrivals++) >> 9);
+    int kind = (int)(sel & 15), u, j, names;
+    struct itdesc d;
+
+    if (lean && (kind == 11 || kind == 13)) kind = 2;
+    if (((kind >= 6 && kind <= 8) || kind == 12 || kind == 15) && last_d[v].how == IT_SENTINEL) kind = 2;      /* nothing produced for v yet: carried */
+    if (kind == 9 || kind == 10) {
+        u = (v + 1 + (int)((sel >> 4) % (unsigned)(nv - 1))) % nv;
+        for (j = 0; j < 4 && (u == v || last_d[u].how == IT_SENTINEL); j++) u = (u + 1) % nv;
+        if (u == v || last_d[u].how == IT_SENTINEL) kind = 2;
+        else { CI = last_it[u]; CId = last_d[u]; }
+    }
+    switch (kind) {
+    case 0: case 1:
+        memset(&CI, 0x5a, sizeof(CI));
+        CId.how = IT_SENTINEL;
+        break;
+    case 6: case 7: case 8: case 12: case 15:
+        CI = last_it[v]; CId = last_d[v];
+        break;
+    case 11:
+        other_map_build(v, k, sel >> 4);
+        break;
+    case 13:                    /* the key object the map has stored, where that is a different one */
+        other_map_build(v, M[v].present ? M[v].k : k, sel >> 4);
+        break;
+    case 14:
+        other_map_drop();
+        memset(&other, 0x3c, sizeof(other));
+        cstl_map_init(&other, desc ? cmp_desc : cmp_asc, &cmp_cookie);
+        CI = *cstl_map_iterator_end(&other);
+        CId.how = IT_OTHER_END;
+        break;
+    default:                    /* 2..5 (and fallbacks): the variable is simply used again */
+        VRT_COUNT("arrive.carried");
+        break;
+    }
+    d = CId;
+    names = CI.key == (const void *)k && (d.how == IT_ENTRY || d.how == IT_ERASE_IT_LEFTOVER || d.how == IT_OTHER_MAP);
+    switch (d.how) {
+    case IT_SENTINEL: ARR(ep, "sentinel"); break;
+    case IT_END: ARR(ep, "end"); break;
+    case IT_OTHER_END: ARR(ep, "other-map-end"); break;
+    case IT_ERASE_REPORT: ARR(ep, "erase-report"); break;
+    case IT_OTHER_MAP:
+        ARR(ep, "other-map-entry");     /* always fresh: any call in between would have overwritten CI */
+        break;
+    default:
+        if (M[d.v].present && gen[d.v] == d.gen) {
+            if (d.v == v) ARR(ep, "same-entry"); else ARR(ep, "another-live-entry");
+        } else {
+            ARR(ep, "gone-entry");
+            if (d.how == IT_ERASE_IT_LEFTOVER) ARR(ep, "gone-entry.erase_iterator-leftover");
+            if (d.v == v && M[v].present) ARR(ep, "gone-entry.value-inserted-again");
+            if (nv <= 64) {
+                for (u = 0; u < nv; u++) if (M[u].present && M[u].blk == d.blk) break;
+                if (u < nv) {
+                    ARR(ep, "gone-entry.node-memory-reused");
+                    if (u == v) ARR(ep, "gone-entry.node-memory-reused.by-this-value");
+                }
+            }
+        }
+        break;
+    }
+    if (names) {
+        ARR(ep, "names-key-pointer");
+        if (!M[v].present) ARR(ep, "names-key-pointer.value-absent");
+    }
+}
+
+/* find value v with key object po and compare with the model; shared: the out-iterator is CI (see above), else a local */
+#define check_find(v, po, ctx, out) check_find_x(v, po, ctx, out, 0)
+static void check_find_x(int v, int po, const char *ctx, cstl_map_iterator_t *out, int shared)
 {
     struct kobj *k = getk(v, po);
-    cstl_map_iterator_t i;
-    memset(&i, 0x5a, sizeof(i));
+    cstl_map_iterator_t loc, *const ip = shared ? &CI : &loc;
+    if (shared) arrive(EP_FIND, v, k); else memset(&loc, 0x5a, sizeof(loc));
     vrt_state(M[v].present ? (M[v].k == k ? "present-same-key-object" : "present-other-key-object") : (Mn ? "absent" : "empty"));
     VRT_OP2("map.find", "v%ld key#%ld", v, po);
     vrt_ev_begin();
-    cstl_map_find(map, k, &i);
+    cstl_map_find(map, k, ip);
     if (M[v].present) {
-        if (cstl_map_iterator_eq(&i, END))
+        if (cstl_map_iterator_eq(ip, END))
             FAILK(ctx, "present.is-end", "value %d is in the map but find yields the end iterator", v);
-        if (i.key != M[v].k)
+        if (ip->key != M[v].k)
             FAILK(ctx, "present.key", "value %d: find yields key pointer %p, the stored key pointer is %p (object #%d)",
-                  v, i.key, (void *)M[v].k, M[v].k ? M[v].k->obj : 0);
-        if (i.val != M[v].v)
+                  v, ip->key, (void *)M[v].k, M[v].k ? M[v].k->obj : 0);
+        if (ip->val != M[v].v)
             FAILK(ctx, "present.val", "value %d: find yields value pointer %p, the stored value pointer is %p",
-                  v, i.val, (void *)M[v].v);
+                  v, ip->val, (void *)M[v].v);
         VRT_COUNT("op.find.present");
         if (M[v].k != k) VRT_COUNT("op.find.present.other-key-object");
         if (M[v].v == NULL) VRT_COUNT("op.find.present.null-value");
         if (M[v].k == NULL) VRT_COUNT("op.find.null-key.present");          /* the stored key pointer is NULL */
         else if (k == NULL) VRT_COUNT("op.find.null-key.probe-other-stored");
     } else {
-        is_end(&i, ctx, v);
+        is_end(ip, ctx, v);
         VRT_COUNT("op.find.absent");
         if (k == NULL) VRT_COUNT("op.find.null-key.absent");
     }
+    if (shared) { if (M[v].present) it_now(IT_ENTRY, v); else it_now_end(); }
     alloc_none(ctx);
-    if (out) *out = i;
+    if (out) *out = *ip;
 }
 
 static void where_counts(int v)
@@ -299,25 +485,24 @@ static void do_insert(int v, int ko, int vo, int with_it, cstl_map_iterator_t *o
     struct kobj *const ok = M[v].k;
     struct vobj *const ov = M[v].v;
     const int present = M[v].present;
-    cstl_map_iterator_t i;
     int r;
 
-    memset(&i, 0x5a, sizeof(i));
+    if (with_it) arrive(EP_INSERT, v, k);
     vrt_state(present ? (ok == k ? "existing-same-key-object" : "existing-other-key-object") : (Mn ? "new" : "new-into-empty"));
     VRT_OP4("map.insert", "v%ld key#%ld val#%ld iter=%ld", v, ko, vo, with_it);
     vrt_ev_begin();
-    r = cstl_map_insert(map, k, x, with_it ? &i : NULL);
+    r = cstl_map_insert(map, k, x, with_it ? &CI : NULL);
     if (present) {
         VRT_CHECK(r == 1, "map.insert.existing.ret", "insert of existing value %d returned %d, expected 1", v, r);
         if (with_it) {
-            VRT_CHECK(!cstl_map_iterator_eq(&i, END), "map.insert.existing.iter-is-end",
+            VRT_CHECK(!cstl_map_iterator_eq(&CI, END), "map.insert.existing.iter-is-end",
                       "insert of existing value %d yields the end iterator", v);
-            VRT_CHECK(i.key == ok, "map.insert.existing.iter-key",
+            VRT_CHECK(CI.key == ok, "map.insert.existing.iter-key",
                       "insert of existing value %d: iterator key %p is not the stored key pointer %p (inserted key object %p)",
-                      v, i.key, (void *)ok, (void *)k);
-            VRT_CHECK(i.val == ov, "map.insert.existing.iter-val",
+                      v, CI.key, (void *)ok, (void *)k);
+            VRT_CHECK(CI.val == ov, "map.insert.existing.iter-val",
                       "insert of existing value %d: iterator value %p is not the stored value pointer %p (offered value %p)",
-                      v, i.val, (void *)ov, (void *)x);
+                      v, CI.val, (void *)ov, (void *)x);
         }
         alloc_none("insert.existing");
         VRT_COUNT("op.insert.existing");
@@ -335,12 +520,12 @@ static void do_insert(int v, int ko, int vo, int with_it, cstl_map_iterator_t *o
     } else {
         VRT_CHECK(r == 0, "map.insert.new.ret", "insert of new value %d returned %d, expected 0", v, r);
         if (with_it) {
-            VRT_CHECK(!cstl_map_iterator_eq(&i, END), "map.insert.new.iter-is-end",
+            VRT_CHECK(!cstl_map_iterator_eq(&CI, END), "map.insert.new.iter-is-end",
                       "insert of new value %d yields the end iterator", v);
-            VRT_CHECK(i.key == k, "map.insert.new.iter-key", "insert of new value %d: iterator key %p, inserted %p",
-                      v, i.key, (void *)k);
-            VRT_CHECK(i.val == x, "map.insert.new.iter-val", "insert of new value %d: iterator value %p, inserted %p",
-                      v, i.val, (void *)x);
+            VRT_CHECK(CI.key == k, "map.insert.new.iter-key", "insert of new value %d: iterator key %p, inserted %p",
+                      v, CI.key, (void *)k);
+            VRT_CHECK(CI.val == x, "map.insert.new.iter-val", "insert of new value %d: iterator value %p, inserted %p",
+                      v, CI.val, (void *)x);
         }
         M[v].blk = alloc_one("insert.new");
         M[v].present = 1; M[v].k = k; M[v].v = x;
@@ -354,13 +539,15 @@ static void do_insert(int v, int ko, int vo, int with_it, cstl_map_iterator_t *o
         if (level >= 1) check_find(v, (ko + 1) % no, "insert.new.then-find", NULL);
     }
     if (!with_it) VRT_COUNT("op.insert.no-iterator");
+    else it_now(IT_ENTRY, v);
     check_size("insert");
-    if (out) *out = i;
+    if (out) *out = CI;
 }
 
 /* the model forgets entry v, the boxed objects are destroyed */
 static void model_remove(int v)
 {
+    gen[v]++;
     M[v].blk = NULL;
     release_objs(v);
     Mn--;
@@ -372,33 +559,33 @@ static void do_erase(int v, int po, int with_it, int level)
     struct kobj *const ok = M[v].k;
     struct vobj *const ov = M[v].v;
     const int present = M[v].present;
-    cstl_map_iterator_t i;
     int r;
 
-    memset(&i, 0x5a, sizeof(i));
+    if (with_it) arrive(EP_ERASE, v, k);
     vrt_state(present ? (ok == k ? "present-same-key-object" : "present-other-key-object") : (Mn ? "absent" : "empty"));
     VRT_OP3("map.erase", "v%ld key#%ld iter=%ld", v, po, with_it);
     vrt_ev_begin();
-    r = cstl_map_erase(map, k, with_it ? &i : NULL);
+    r = cstl_map_erase(map, k, with_it ? &CI : NULL);
     if (present) {
         VRT_CHECK(r == 0, "map.erase.present.ret", "erase of present value %d returned %d, expected 0", v, r);
         if (with_it) {
-            VRT_CHECK(i.key == ok, "map.erase.present.iter-key",
-                      "erase of value %d reports key pointer %p, the removed entry stored %p", v, i.key, (void *)ok);
-            VRT_CHECK(i.val == ov, "map.erase.present.iter-val",
-                      "erase of value %d reports value pointer %p, the removed entry stored %p", v, i.val, (void *)ov);
-            if (cstl_map_iterator_eq(&i, END)) VRT_COUNT("op.erase.present.iter-detached");
+            VRT_CHECK(CI.key == ok, "map.erase.present.iter-key",
+                      "erase of value %d reports key pointer %p, the removed entry stored %p", v, CI.key, (void *)ok);
+            VRT_CHECK(CI.val == ov, "map.erase.present.iter-val",
+                      "erase of value %d reports value pointer %p, the removed entry stored %p", v, CI.val, (void *)ov);
+            if (cstl_map_iterator_eq(&CI, END)) VRT_COUNT("op.erase.present.iter-detached");
         }
         alloc_freed("erase.present", v);
         if (ov == NULL) VRT_COUNT("op.erase.present.null-value");
         if (ok == NULL) VRT_COUNT("op.erase.null-key");
+        if (with_it) it_now(IT_ERASE_REPORT, v);
         model_remove(v);
         alloc_live("erase.present");
         VRT_COUNT("op.erase.present");
         if (level >= 1) check_find(v, po, "erase.then-find", NULL);
     } else {
         VRT_CHECK(r == -1, "map.erase.absent.ret", "erase of absent value %d returned %d, expected -1", v, r);
-        if (with_it) is_end(&i, "erase", v);
+        if (with_it) { is_end(&CI, "erase", v); it_now_end(); }
         alloc_none("erase.absent");
         VRT_COUNT("op.erase.absent");
     }
@@ -408,19 +595,19 @@ static void do_erase(int v, int po, int with_it, int level)
 
 static void do_erase_it(int v, int po, int vo, int via_insert, int level)
 {
-    cstl_map_iterator_t i;
     const int was_present = M[v].present;
 
-    if (via_insert) do_insert(v, po, vo, 1, &i, 0);
-    else check_find(v, po, "erase_iterator.find", &i);
-    /* no mutation in between: i refers to the entry of value v */
+    if (via_insert) do_insert(v, po, vo, 1, NULL, 0);
+    else check_find_x(v, po, "erase_iterator.find", NULL, 1);
+    /* no mutation in between: CI refers to the entry of value v */
     vrt_state(via_insert ? (was_present ? "from-insert-existing" : "from-insert-new") : "from-find");
     VRT_OP2("map.erase_iterator", "v%ld via-insert=%ld", v, via_insert);
     vrt_ev_begin();
-    cstl_map_erase_iterator(map, &i);
+    cstl_map_erase_iterator(map, &CI);
     alloc_freed("erase_iterator", v);
     if (M[v].v == NULL) VRT_COUNT("op.erase_iterator.null-value");
     if (M[v].k == NULL) VRT_COUNT("op.erase_iterator.null-key");
+    it_now(IT_ERASE_IT_LEFTOVER, v);    /* whatever erase_iterator left in CI: its entry is gone */
     model_remove(v);
     alloc_live("erase_iterator");
     if (!via_insert) VRT_COUNT("op.erase_iterator.from-find");
@@ -482,7 +669,8 @@ static void do_clear(int nullcb, int level)
     struct evsum s;
     int v, j, cnt;
 
-    for (v = 0; v < nv; v++) { M[v].handed = 0; M[v].handed_k = NULL; }
+    other_map_drop();           /* outside the event window; the callback is about to free key objects it may hold */
+    for (v = 0; v < nv; v++) { M[v].handed = 0; M[v].handed_k = NULL; if (M[v].present) gen[v]++; }
     clr_seen = 0;
     vrt_state(Mn == 0 ? "empty" : Mn == 1 ? "one-entry" : "several-entries");
     VRT_OP2("map.clear", "callback=%ld entries=%ld", !nullcb, Mn);
@@ -525,8 +713,8 @@ static void do_clear(int nullcb, int level)
     }
     VRT_CHECK(nullcb ? cnt == before : cnt == 0, "map.clear.cb-count", "clear with callback skipped %d entries", cnt);
     Mn = 0;
-    VRT_CHECK(vrt_lib_live() == 0, "map.clear.alloc.live-after-clear", "%zu library blocks live after clear (held %d entries)",
-              vrt_lib_live(), before);
+    VRT_CHECK(lib_live() == 0, "map.clear.alloc.live-after-clear", "%zu library blocks live after clear (held %d entries)",
+              lib_live(), before);
     VRT_COUNT_N("alloc.node-free", before);
     check_size("clear");
     if (nullcb) VRT_COUNT("op.clear.null-callback"); else VRT_COUNT("op.clear.callback");
@@ -686,7 +874,7 @@ static int apply_ex(uint32_t op, int level)
         do_insert(v, ko, vo, fl, NULL, level);
         break;
     case K_FIND:
-        check_find(v, ko, "find", NULL);
+        check_find_x(v, ko, "find", NULL, 1);
         VRT_COUNT("op.find");
         break;
     case K_ERASE:
@@ -711,7 +899,14 @@ static int apply_ex(uint32_t op, int level)
     if (level >= 2) audit_full();
     return 1;
 }
-static int st_apply(uint32_t op, int audit) { return apply_ex(op, audit ? 2 : 0); }
+static int st_apply(uint32_t op, int audit)
+{
+    int r;
+    lean = !audit;
+    r = apply_ex(op, audit ? 2 : 0);
+    lean = 0;
+    return r;
+}
 
 static void setup(int nvalues, int nobjs, int descending, int smode)
 {
@@ -719,7 +914,11 @@ static void setup(int nvalues, int nobjs, int descending, int smode)
     memset(K, 0, (size_t)nv * sizeof(K[0]));
     memset(V, 0, (size_t)nv * sizeof(V[0]));
     memset(M, 0, (size_t)nv * sizeof(M[0]));
-    Mn = 0; hist = 0x1157; cleared_once = 0;
+    Mn = 0; hist = 0x1157; cleared_once = 0; lean = 0;
+    memset(last_d, 0, (size_t)nv * sizeof(last_d[0]));
+    memset(gen, 0, (size_t)nv * sizeof(gen[0]));
+    memset(&CI, 0x5a, sizeof(CI));
+    CId.how = IT_SENTINEL; arrivals = 0; other_n = 0; other_fresh = 0; other_serial = 0;
     map = vrt_alloc(sizeof(*map));
     memset(map, 0x3c, sizeof(*map));
     VRT_OP1("map.init", "descending=%ld", desc);
@@ -730,6 +929,7 @@ static void setup(int nvalues, int nobjs, int descending, int smode)
 static void st_destroy(void)
 {
     int v, o;
+    other_map_drop();
     if (Mn > 0) do_clear(1, 0);
     VRT_CHECK(vrt_lib_live() == 0, "map.teardown.alloc.leak", "%zu library blocks still live after the final clear", vrt_lib_live());
     for (v = 0; v < nv; v++) for (o = 0; o < no; o++) {
@@ -1113,8 +1313,27 @@ static const char *const required[] = {
     "op.erase_iterator.from-find", "op.erase_iterator.from-insert-new", "op.erase_iterator.from-insert-existing",
     "op.size", "op.clear.callback.several", "op.clear.null-callback.several", "op.clear.empty", "clear.handed-over",
     "alloc.node-malloc", "alloc.node-free", "audit.full", "walker.trees", "cmp.calls",
-    "closure.states", "closure.scopes-closed", "sequences.transitions", "random.histories", NULL
+    "closure.states", "closure.scopes-closed", "sequences.transitions", "random.histories",
+    /* the out-iterator arrived holding ... (per entry point) */
+    "arrive.carried", "other-map.built", "other-map.verified",
+    "op.insert.arrives.same-entry", "op.find.arrives.same-entry", "op.erase.arrives.same-entry",
+    "op.insert.arrives.another-live-entry", "op.find.arrives.another-live-entry", "op.erase.arrives.another-live-entry",
+    "op.insert.arrives.gone-entry", "op.find.arrives.gone-entry", "op.erase.arrives.gone-entry",
+    "op.insert.arrives.gone-entry.erase_iterator-leftover", "op.find.arrives.gone-entry.erase_iterator-leftover",
+    "op.erase.arrives.gone-entry.erase_iterator-leftover",
+    "op.insert.arrives.gone-entry.value-inserted-again", "op.find.arrives.gone-entry.value-inserted-again",
+    "op.erase.arrives.gone-entry.value-inserted-again",
+    "op.insert.arrives.erase-report", "op.find.arrives.erase-report", "op.erase.arrives.erase-report",
+    "op.insert.arrives.other-map-entry", "op.find.arrives.other-map-entry", "op.erase.arrives.other-map-entry",
+    "op.insert.arrives.other-map-end", "op.find.arrives.other-map-end", "op.erase.arrives.other-map-end",
+    "op.insert.arrives.names-key-pointer.value-absent", "op.find.arrives.names-key-pointer.value-absent",
+    "op.erase.arrives.names-key-pointer.value-absent",
+    NULL,       /* end of the list under a sanitizer (freed blocks sit in its quarantine there) */
+    /* plain allocator (rel-native): the node memory of an erased entry has been handed out again to a later insert */
+    "op.insert.arrives.gone-entry.node-memory-reused", "op.find.arrives.gone-entry.node-memory-reused",
+    "op.erase.arrives.gone-entry.node-memory-reused", NULL
 };
+static const char *required_plain[sizeof(required) / sizeof(required[0])];
 static const char *const required_clear[] = {
     "probe.clear-then-reuse", "probe.clear-null-callback-then-reuse", "probe.clear-then-reuse.random",
     "op.insert.null-value", "clear.handed-over.null-value",
@@ -1123,11 +1342,19 @@ static const char *const required_clear[] = {
     "op.erase_iterator", "closure.states", "closure.scopes-closed", "closure.probes", "random.histories", NULL
 };
 static const struct vrt_harness H = { "map", ncases, run_case, winit, wfini, required, 16 };
+static const struct vrt_harness Hplain = { "map", ncases, run_case, winit, wfini, required_plain, 16 };
 static const struct vrt_harness Hclear = { "map", ncases, run_case, winit, wfini, required_clear, 16 };
 
 int main(int argc, char **argv)
 {
-    int i, clear = 0;
-    for (i = 1; i + 1 < argc; i++) if (strcmp(argv[i], "--mode") == 0 && strcmp(argv[i + 1], "clear") == 0) clear = 1;
-    return vrt_main(argc, argv, clear ? &Hclear : &H);
+    int i, clear = 0, plain = 0;
+    size_t j, n = 0;
+    for (i = 1; i + 1 < argc; i++) {
+        if (strcmp(argv[i], "--mode") == 0 && strcmp(argv[i + 1], "clear") == 0) clear = 1;
+        /* a configuration without a sanitizer runtime: free()d node memory is handed out again at once */
+        if (strcmp(argv[i], "--config") == 0 && strstr(argv[i + 1], "san") == NULL) plain = 1;
+    }
+    for (j = 0; j < sizeof(required) / sizeof(required[0]); j++) if (required[j] != NULL) required_plain[n++] = required[j];
+    required_plain[n] = NULL;
+    return vrt_main(argc, argv, clear ? &Hclear : plain ? &Hplain : &H);
 }
